@@ -84,6 +84,9 @@ pub mod text;
 
 mod lexer;
 
+#[cfg(feature = "verif_hooks")]
+pub mod verif_seam;
+
 use bitflags::bitflags;
 use serde::{Deserialize, Serialize};
 
